@@ -85,7 +85,7 @@ def worker(args):
                                         "reported": True})
                         if bad or not alive or rc not in (0, None):
                             res["problems"].insert(0, ("violation", "dbus-daemon %s (exit status %s) during this script: %s" % (
-                                "was still running" if alive else "DIED", rc, " | ".join(bad[:4]) or err[-300:])))
+                                "DIED" if (not alive or rc not in (0, None)) else "complained", rc, " | ".join(bad[:4]) or err[-300:])))
                     bus = None
                     # only pure timing mismatches are worth another attempt
                     if all(k in ("mismatch", "late") for k, _ in res["problems"]) and attempt + 1 < attempts:
